@@ -2,12 +2,12 @@ INIT OInit
 NEXT ONext
 CONSTANTS
   Species = {"A", "B", "C", "D"}
-  Catalog <- Cat8
+  Catalog <- Cat3
   MaxR = 2
   KVals <- KZ
   Orders <- OrdOne
   FullOrder = FALSE
-  Points <- PtsZero
+  Points <- PtsZ1
   Feeds <- FdZero
   PhaseMaps <- Ph1
   ReKVals <- NoReK
